@@ -15,6 +15,7 @@ pub mod c07;
 pub mod c08;
 pub mod c09;
 pub mod c12;
+pub mod c13;
 pub mod c16;
 pub mod c17;
 pub mod c18;
